@@ -174,6 +174,25 @@ def _expected_after_replace(ctx, M, Rm, spec, run, res, smap, replace_all, strat
         stats["terms"] += nterms
         stats["superseded"] += before + nterms - after
         stats["retyped"] += len(imap)
+    # a structure atom retained by several selected matches is re-typed by each of them; WHICH of them is processed last is not
+    # specified (it depends on the order in which matches are handled), so any of the candidates is accepted for such atoms
+    cand = {}
+    for mi, m in enumerate(sel):
+        for r, s in smap.items():
+            cand.setdefault(m[s], []).append(Rm.atoms[r])
+    amb = {si: c for si, c in cand.items() if len(c) > 1 and si not in removed}
+    if amb:
+        A = refmodel.abstract(res)
+        for si, cs in amb.items():
+            js = index.get(tuple(M.atoms[si].pos), [])
+            for j in js:
+                ra = A.atoms[j]
+                if any((ra.el, ra.label, ra.mass, ra.pair) == (c.el, c.label, c.mass, c.pair) for c in cs):
+                    E.atoms[si].el, E.atoms[si].label, E.atoms[si].mass, E.atoms[si].pair = ra.el, ra.label, ra.mass, ra.pair
+                    if E.atoms[si].extras or ra.extras:
+                        E.atoms[si].extras = dict(ra.extras)
+                    break
+        ctx.count("atoms_retained_by_several_matches", len(amb))
     E.delete(removed)
     return E, stats, removed
 
@@ -181,10 +200,24 @@ def _expected_after_replace(ctx, M, Rm, spec, run, res, smap, replace_all, strat
 def check_replace_result(ctx, M, Rm, spec, run, res, smap, replace_all, prefix, where):
     """Compare the real result with the reference model under some consistent identification of the inserted atoms."""
     first = None
+    # when the terms of two selected matches land on the same set of atoms (matches overlapping in retained atoms), which of
+    # them supersedes which depends on the order in which the matches are handled - unspecified: such kinds are not judged
+    sel = [run.found[0][i] for i in run.selected]
+    skip = []
+    for k in KINDS:
+        seen = {}
+        for mi, m in enumerate(sel):
+            for t in Rm.terms[k]:
+                if all(r in smap for r in t.atoms):
+                    key = frozenset(m[smap[r]] for r in t.atoms)
+                    if seen.setdefault(key, mi) != mi:
+                        skip.append(k)
+        if k in skip:
+            ctx.count("kinds_with_order_dependent_supersession")
     for strategy in ("order", "hungarian", "anchor"):
         try:
             E, stats, removed = _expected_after_replace(ctx, M, Rm, spec, run, res, smap, replace_all, strategy)
-            refmodel.compare(refmodel.abstract(res), E, prefix, where, order="any", pos_tol=0.0)
+            refmodel.compare(refmodel.abstract(res), E, prefix, where, order="any", pos_tol=0.0, skip_kinds=tuple(set(skip)))
             if strategy != "order":
                 ctx.count("inserted_atoms_identified_by_%s" % strategy)
             return E, stats, removed
